@@ -33,6 +33,9 @@ PAIRS = [("DataModelType", "OwnedDataModelType"), ("Data", "OwnedData"), ("Named
 
 
 def norm_ty(t):
+    # one name per std item whichever facade the configuration names it through (`alloc::boxed::Box` without std)
+    t = re.sub(r"(?<![\w:])(?:\w+::)+alloc::(?=(string|vec|collections|boxed|borrow)::)", "alloc::", t)
+    t = re.sub(r"(?<![\w:])(core|alloc)::(?=(num|option|result|ops|string|vec|collections|boxed|borrow|marker)::)", "std::", t)
     t = t.replace("&'static ", "").replace("&", "")
     while True:
         m = re.search(r"std::boxed::Box<([^<>]*(?:<[^<>]*>)?[^<>]*)>", t)
@@ -82,11 +85,64 @@ def ser_arms(F, f):
     return arms
 
 
+class _Cfg:
+    """the same clauses in another build configuration: keys carry the configuration, floors are per configuration"""
+
+    def __init__(self, run_, cfg):
+        self.run_, self.cfg = run_, cfg
+        self.counts = {}
+
+    def _k(self, key):
+        return "%s [%s]" % (key, self.cfg)
+
+    def ok(self, rule, key, detail="", site=None, method=None):
+        self.counts[rule] = self.counts.get(rule, 0) + 1
+        return self.run_.ok(rule + self.cfg, self._k(key), detail, site, method)
+
+    def bad(self, rule, key, what, site=None, expected=None, found=None):
+        return self.run_.bad(rule + self.cfg, self._k(key), what, site, expected, found)
+
+    def check(self, cond, rule, key, what, site=None, expected=None, found=None, detail=""):
+        if cond:
+            return self.ok(rule, key, detail or what, site)
+        return self.bad(rule, key, what, site, expected, found)
+
+    def floor(self, rule, n):
+        return self.run_.floor(rule + self.cfg, n)
+
+    def note(self, msg):
+        if hasattr(self.run_, "note"):
+            self.run_.note("[%s] %s" % (self.cfg, msg))
+
+
 def run(run_, ctx):
-    F = ctx.facts("A")
-    sc = F.crate("postcard_schema")
+    run_config(run_, ctx.facts("A"))
     run_.configs.append("A")
-    run_.bodies += len(sc.fns)
+    # the owned family and its conversions are feature-gated (`use-std` / `alloc`): the alloc-only build is a configuration of its own
+    # (the workspace build unifies `use-std` in, so no test ever compiles it)
+    try:
+        FC = ctx.facts("C")
+    except Exception as e:
+        run_.bad("AC", "configuration C", "the alloc-only configuration of postcard-schema could not be analysed: %s" % e)
+        FC = None
+    if FC is not None:
+        run_.configs.append("C")
+        run_config(_Cfg(run_, "C"), FC)
+    run_.explanation = (
+        "ADT tables of the four declaration pairs are compared variant-by-variant (names, order, constructor kind, field names/order, types modulo "
+        "transparent wrappers). The eight serde-derived Serialize bodies are explored from MIR: per enum arm / struct the Serializer method, variant index, "
+        "variant name and ordered field names with their value types must agree between the borrowed and owned family, and indices follow declaration order. "
+        "The generated (de)serialisation of the owned family may call only generated code and other crates (no hand-written hook). "
+        "Each arm of every conversion fn(&Borrowed) -> Owned (the From impls and whatever they forward to; constructor helpers are analysed in place) must build "
+        "the same-named variant and fill each field from the same-named source field through conversions/Box::new/iter().map(conversion).collect() only. "
+        "All clauses are decided twice: in the workspace configuration (use-std) and in the alloc-only configuration of postcard-schema.")
+    run_.trusted += ["serde_derive", "postcard wire encoding of the Serializer calls (C02)"]
+
+
+def run_config(run_, F):
+    sc = F.crate("postcard_schema")
+    if hasattr(run_, "bodies"):
+        run_.bodies += len(sc.fns)
     # ---- A ------------------------------------------------------------------------------------------------
     for b, o in PAIRS:
         ab, ao = adt(sc, b, False), adt(sc, o, True)
@@ -196,14 +252,6 @@ def run(run_, ctx):
             continue
         check_from(run_, F, sc, fs[0], b, o)
     run_.floor("F", 32)
-    run_.explanation = (
-        "ADT tables of the four declaration pairs are compared variant-by-variant (names, order, constructor kind, field names/order, types modulo "
-        "transparent wrappers). The eight serde-derived Serialize bodies are explored from MIR: per enum arm / struct the Serializer method, variant index, "
-        "variant name and ordered field names with their value types must agree between the borrowed and owned family, and indices follow declaration order. "
-        "The generated (de)serialisation of the owned family may call only generated code and other crates (no hand-written hook). "
-        "Each arm of every conversion fn(&Borrowed) -> Owned (the From impls and whatever they forward to; constructor helpers are analysed in place) must build "
-        "the same-named variant and fill each field from the same-named source field through conversions/Box::new/iter().map(conversion).collect() only.")
-    run_.trusted += ["serde_derive", "postcard wire encoding of the Serializer calls (C02)"]
 
 
 def hir_strs(h):
